@@ -55,9 +55,56 @@ def base_statements(rng, n):
     return simple + out[:n]
 
 
+RICH = [
+    "MERGE INTO t USING s ON t.id = s.id WHEN MATCHED THEN UPDATE SET a = s.a WHEN NOT MATCHED THEN INSERT (id, a) VALUES (s.id, s.a)",
+    "MERGE INTO t USING s ON t.id = s.id WHEN MATCHED THEN DELETE",
+    "WITH c AS (SELECT a FROM t) SELECT a FROM c",
+    "INSERT INTO t (a) SELECT b FROM u",
+    "SELECT a FROM t WHERE a IN (SELECT b FROM u)",
+    "SELECT a FROM (SELECT b AS a FROM u) d",
+    "SELECT a FROM t UNION SELECT b FROM u",
+    "CREATE VIEW v AS SELECT a FROM t",
+    "CREATE TABLE t (a INT PRIMARY KEY, b TEXT NOT NULL)",
+    "CREATE INDEX i ON t (a)",
+    "ALTER TABLE t ADD COLUMN c INT",
+    "UPDATE t SET a = (SELECT MAX(b) FROM u) WHERE a = 1",
+    "DELETE FROM t WHERE a IN (SELECT b FROM u)",
+    "INSERT INTO t (a) VALUES (1) ON CONFLICT (a) DO UPDATE SET a = 2",
+    "REFRESH MATERIALIZED VIEW v",
+    "CREATE MATERIALIZED VIEW v AS SELECT a FROM t",
+    "DROP VIEW v",
+    "SELECT a FROM t WHERE EXISTS (WITH c AS (SELECT 1) SELECT 1 FROM c)",
+]
+
+
+def rich_statements(rng, n):
+    """valid statements of every kind, inner statement keywords allowed (MERGE, sub-queries, CTEs, INSERT ... SELECT):
+    used for well-formed segments only"""
+    cs = [s for s in sqlgen.corpus_statements() if len(s) < 400 and ";" not in toks(s)]
+    by_kw = {}
+    for s in cs:
+        t = toks(s)
+        if t:
+            by_kw.setdefault(t[0].upper(), []).append(s)
+    out = list(RICH)
+    for kw, lst in sorted(by_kw.items()):
+        rng.shuffle(lst)
+        out += lst[:max(3, n // 20)]
+    return out
+
+
+def layout(rng, nseg):
+    """(prefix, separators): white space in front of the first segment and around the one semicolon between segments"""
+    ws = ["", "", "", "\n", "\n\n", "  ", "\t", "\n   ", "\n\n\n  ", " \n"]
+    prefix = rng.choice(ws)
+    seps = [rng.choice(["", "", " ", "\n"]) + ";" + rng.choice(["\n", "\n", " ", "", "\n\n", "\n  ", "  "]) for _ in range(max(nseg - 1, 0))]
+    return prefix, seps
+
+
 def scripts(rng, n, maxseg=6):
     """list of dict(segs=[(text, kind)], sql=joined text) — kind 'valid' or the corruption operator"""
     base = base_statements(rng, max(50, n))
+    rich = rich_statements(rng, n)
     out = []
     for _ in range(n):
         k = rng.randrange(1, maxseg + 1)
@@ -65,13 +112,15 @@ def scripts(rng, n, maxseg=6):
         for _ in range(k):
             s = rng.choice(base)
             x = rng.random()
-            if x < 0.3:
+            if x < 0.15:
+                segs.append((rng.choice(rich), "valid_rich"))
+            elif x < 0.4:
                 kind, s2 = corrupt(rng, s)
                 segs.append((s2, kind))
-            elif x < 0.4:
+            elif x < 0.5:
                 # a complete statement followed by stray tokens (no semicolon in between)
                 segs.append((s + " " + rng.choice([")", "t t", "xyz 5", ", ,", "= =", "'s' 1", ") ) a"]), "junk_suffix"))
-            elif x < 0.5:
+            elif x < 0.62:
                 # a malformed segment that does not begin with a statement keyword
                 ts = toks(s)
                 segs.append((rng.choice(["x", ") a", "a b c", "1 + 2", " ".join(ts[1:]) or "y", ", " + " ".join(ts[1:4])]), "no_keyword"))
